@@ -11,6 +11,17 @@ Spec:   MofText.tla      class alphabet; Esc (_mof_escaped), FoldStep (one
                          <= maxline.  MofTextMC.cfg is the repaired design and
                          must pass; the three *Legacy*.cfg configurations are
                          the pinned tree's variants and must fail.
+        MofTextInst.tla  instance level: what the CLASS declares as default
+                         for a property (none / NULL / scalar / array) x what
+                         the instance gives (absent / NULL / value shapes) for
+                         every CIM type and for embedded-object properties;
+                         code-shaped p_instanceDeclaration (copy of the class
+                         property + assignment of the initializer) with wrong
+                         variants
+        MofTextInstMC.tla  TLC checks the round trip over that universe,
+                         refutes the variants (MofTextInstMCLegacyNull.cfg
+                         must fail) and PRINTS the universe; every printed
+                         case becomes one real instance + primed class.
         MofTextTrace.tla trace validation (TraceKit): verdict per event.
 Binding: (a) vectors <s, indent, maxline, line_pos, end_space, avoid_splits>
         simulated by TLC, the TLC counterexamples and seeded random vectors
